@@ -298,6 +298,8 @@ def rule_weights(ctx):
             last = d.split(".")[-1]
             if last == "dot" and len(n.args) == 2:
                 return ev(n.args[0]) * ev(n.args[1])
+            if isinstance(n.func, ast.Attribute) and n.func.attr == "dot" and len(n.args) == 1 and d.split(".")[0] not in ("np", "numpy"):
+                return ev(n.func.value) * ev(n.args[0])
             if last == "exp":
                 v = ev(n.args[0])
                 return v.applyfunc(sp.exp) if isinstance(v, sp.MatrixBase) else sp.exp(v)
@@ -403,8 +405,12 @@ def rule_slice(ctx):
         if isinstance(kx, ast.BinOp) and isinstance(kx.op, ast.Sub) and norm(kx.right) == il and isinstance(kx.left, ast.Subscript) \
                 and norm(kx.left.value) == "self.x_sorted_inds":
             m = calls_in(kx.left.slice, "where") if not (isinstance(kx.left.slice, ast.Call) and (dotted(kx.left.slice.func) or "").endswith("where")) else [kx.left.slice]
+            mask = None
             if m and len(m[0].args) == 1:
                 mask = m[0].args[0]
+            elif not m and isinstance(kx.left.slice, (ast.BinOp, ast.Compare, ast.Call, ast.BoolOp)):
+                mask = kx.left.slice           # boolean-mask indexing: x[mask] selects where the mask holds, like x[np.where(mask)]
+            if mask is not None:
                 tt = {}
                 for k in range(4):
                     tt[k] = bool(Interp({il: 1, iu: 3, "self.x_sorted_inds": k}).ev(mask))
